@@ -257,6 +257,27 @@ def write_replay(pid, obj):
     return p
 
 
+def run_corpus(ctx, mod, pid):
+    """the committed corpus: for every stored seeded change, the input on which the check caught it (corpus/<pid>/<seed>.json, written by
+    tools/reseed.sh and verified to pass on the unchanged tree). Each is replayed on every run, before anything random decides: a
+    change that was caught once is caught again whatever the generators draw"""
+    d = os.path.join(VERIF, 'corpus', pid)
+    if not os.path.isdir(d) or os.environ.get('RESEED_NO_CORPUS'):
+        return
+    import io, contextlib
+    for fn in sorted(os.listdir(d)):
+        if not fn.endswith('.json'): continue
+        try:
+            obj = json.load(open(os.path.join(d, fn)))
+            with contextlib.redirect_stdout(io.StringIO()):
+                rc = mod.replay(obj)
+        except Exception as e:
+            rc = 1; obj = {'case': {'stage': 'corpus'}, 'what': 'replay raised %s' % type(e).__name__}
+        ctx.evaluations += 1; ctx.count('corpus_inputs')
+        if rc:
+            case = dict(obj.get('case') or {}); case['corpus'] = fn[:-5]
+            ctx.failures.append((case, 'corpus input %s fails again: %s' % (fn[:-5], (obj.get('what') or '')[:300])))
+
 def run_check(pid, tier, seed, mod):
     """mod: the property module (tools/props/<pid>.py). Returns exit code."""
     t0 = time.time()
@@ -290,6 +311,7 @@ def run_check(pid, tier, seed, mod):
         if model_ok:
             mod.correspondence(ctx)
         mod.search(ctx, budget)
+        run_corpus(ctx, mod, pid)
         from . import impl as _impl
         if _impl.CRASHED:
             # a job that kills its worker process even when run alone: report it, it is never silently skipped
